@@ -248,7 +248,11 @@ func (r *ClientPeerRef) Send(ctx context.Context, msg []byte) (_ *signaling_rpc.
 
 			// Stream with remote was re-opened.
 			if sessionSeqno == nil || *sessionSeqno != *tkr.open {
-				txed = false
+				// If our message is still in tkr.out it will be sent again by
+				// the session routine: keep waiting for it to be acked.
+				if tkr.out == nil || tkr.out.Seqno != seqno {
+					txed = false
+				}
 				sessionSeqno = tkr.open
 			}
 
